@@ -121,8 +121,11 @@ def case_eig_post(log, dim):
                 tgt = e[i] if i == j else realnp.zeros((dim, dim), dtype=int).astype(object)
                 goals.append(("P_%d P_%d == delta P_%d" % (i, j, i), list((e[i] @ e[j] - tgt).flat)))
         goals.append(("sum P_i == 1", list((sum(e[i] for i in range(dim)) - I).flat)))
-        goals.append(("M == sum w_i P_i", list((sum(e[i] * w[i] for i in range(dim)) - M).flat)))
-        want = sum(e[i] * w[i].exp() for i in range(dim))
+        # the *returned* eigenvalues must belong to the returned projectors, slot by slot
+        goals.append(("M == sum w_i P_i", list((sum(e[i] * ww[i] for i in range(dim)) - M).flat)))
+        for i in range(dim):
+            goals.append(("M P_%d == w_%d P_%d" % (i, i, i), list((M @ e[i] - e[i] * ww[i]).flat)))
+        want = sum(e[i] * ww[i].exp() for i in range(dim))
         goals.append(("exp == sum exp(w_i) P_i", list((exp - want).flat)))
         ref = (v * realnp.array([x.exp() for x in w], dtype=object)[None, :]) @ vinv
         goals.append(("exp == v diag(exp w) v^-1", list((exp - ref).flat)))
